@@ -332,7 +332,7 @@ def parse_define(m, lines):
     for l in lines[1:-1]:
         if acc is not None:
             acc += ' ' + l.strip()
-            if l.strip() == ']': joined.append(acc); acc = None
+            if l.strip().startswith(']'): joined.append(acc); acc = None
             continue
         if l.lstrip().startswith('switch ') and l.rstrip().endswith('['): acc = l; continue
         joined.append(l)
